@@ -270,6 +270,18 @@ func checkCloneKinds(p *Prog, r *Result, rule string) {
 				if call, ok := in.(*ssa.Call); ok && call.Call.StaticCallee() == cv {
 					recurses = true
 				}
+				// the arm's work extracted into a helper that recurses into the clone
+				if call, ok := in.(*ssa.Call); ok {
+					if h := call.Call.StaticCallee(); h != nil && h != cv && h.Blocks != nil && inSod(p, h) {
+						rec, cond := helperRecursion(h, cv)
+						if rec {
+							recurses = true
+							if cond {
+								conditional[reflectKinds[k]] = true
+							}
+						}
+					}
+				}
 			}
 		}
 		if recurses {
@@ -317,6 +329,34 @@ func checkCloneKinds(p *Prog, r *Result, rule string) {
 			r.Report(rule, FuncName(cv), "deep arm for "+k, Violated, "the deep clone has no recursing arm for reflect."+k+" (arms: "+strings.Join(have, ", ")+"): values of that kind are copied shallowly, so pointers inside them stay shared between the caller and the cache", p.Pos(cv.Pos()), nil, true)
 		}
 	}
+}
+
+// helperRecursion: does h call the recursive clone cv, and is any such call guarded by a comparison with a reflect.Kind
+// constant inside h (a fast path that leaves some kinds shallow)?
+func helperRecursion(h, cv *ssa.Function) (recurses, conditional bool) {
+	for _, b := range h.Blocks {
+		for _, in := range b.Instrs {
+			call, ok := in.(*ssa.Call)
+			if !ok || call.Call.StaticCallee() != cv {
+				continue
+			}
+			recurses = true
+			for d := b.Idom(); d != nil; d = d.Idom() {
+				ifi, ok := d.Instrs[len(d.Instrs)-1].(*ssa.If)
+				if !ok {
+					continue
+				}
+				if bo, ok := ifi.Cond.(*ssa.BinOp); ok {
+					for _, side := range []ssa.Value{bo.X, bo.Y} {
+						if cst, ok := side.(*ssa.Const); ok && isNamedFrom(cst.Type(), "reflect", "Kind") {
+							conditional = true
+						}
+					}
+				}
+			}
+		}
+	}
+	return
 }
 
 func init() { register("C14", checkC14) }
